@@ -661,11 +661,22 @@ func (e *SpecEnv) call(x *ast.CallExpr) T {
 		}
 		return e.ex.JoinTerm(parts, "/")
 	case "cat":
-		a, b := e.tr(x.Args[0]), e.tr(x.Args[1])
-		if a.Sort != SBytes || b.Sort != SBytes {
-			sfail("cat: arguments must be byte strings, got %s and %s", a.Sort, b.Sort)
+		if len(x.Args) < 2 {
+			sfail("cat: needs at least two arguments")
 		}
-		return Cat(a, b)
+		// cat(a, b, c, ...) = a ++ b ++ c ++ ... (right-nested normal form)
+		r := e.tr(x.Args[len(x.Args)-1])
+		if r.Sort != SBytes {
+			sfail("cat: arguments must be byte strings, got %s", r.Sort)
+		}
+		for i := len(x.Args) - 2; i >= 0; i-- {
+			a := e.tr(x.Args[i])
+			if a.Sort != SBytes {
+				sfail("cat: arguments must be byte strings, got %s", a.Sort)
+			}
+			r = Cat(a, r)
+		}
+		return r
 	case "joinsep":
 		lit, ok := x.Args[0].(*ast.BasicLit)
 		if !ok {
